@@ -328,6 +328,17 @@ var pathClasses = []struct{ name, p string }{
 	{"enc-lower-hex", "/a%2fb%c3%bc"},
 	{"enc-newline", "/a%0Ab"},
 	{"trailing-slash", "/dir/"},
+	// percent-encoded dot segments and slashes: the router's path cleaning does not see them, anything
+	// that "cleans" the outgoing path after signing would (added after seeded change C12i)
+	{"enc-dotdot-segment", "/reports/%2e%2e/summary"},
+	{"enc-dot-segment", "/a/%2E/b"},
+	{"enc-double-slash", "/files/a%2F%2Fb"},
+	{"enc-dotdot-enc-slash", "/a/%2e%2e%2fb"},
+	{"enc-dotdot-first", "/%2e%2e/x"},
+	{"dotdot-enc-slash", "/a/..%2fb"},
+	{"enc-dotdot-last", "/a/b/%2e%2e"},
+	{"enc-slash-dotdot-enc-slash", "/a%2F..%2Fb"},
+	{"half-enc-dotdot", "/a/.%2e/b"},
 }
 
 var queryClasses = []struct{ name, q string }{
